@@ -78,7 +78,7 @@ class Kernel:
     # -- scheduling -------------------------------------------------------
     def draw_latency(self, label="lat"):
         kind = self.policy.get("kind")
-        if kind in ("zero", "inline"):
+        if kind in ("zero", "inline", "pick"):
             return 0.0
         if kind == "fifo":
             return 0.001
@@ -89,7 +89,7 @@ class Kernel:
 
     def draw_tie(self):
         kind = self.policy.get("kind")
-        if kind in ("fifo", "zero", "inline"):
+        if kind in ("fifo", "zero", "inline", "pick"):
             return 0
         if kind == "lifo":
             return -self.seq
@@ -117,7 +117,16 @@ class Kernel:
         self.steps += 1
         if self.steps > self.max_steps:
             raise StepCap("step cap %d exceeded" % self.max_steps)
-        at, tie, seq, kind, thunk, tag = heapq.heappop(self.heap)
+        if self.policy.get("kind") == "pick" and len(self.heap) > 1:
+            # any in-flight item may complete next, whatever its latency
+            i = self.stream.below(len(self.heap), "pick")
+            item = self.heap[i]
+            self.heap[i] = self.heap[-1]
+            self.heap.pop()
+            heapq.heapify(self.heap)
+            at, tie, seq, kind, thunk, tag = item
+        else:
+            at, tie, seq, kind, thunk, tag = heapq.heappop(self.heap)
         if tie != 0:
             self.stats["ties_reordered"] += 1
         if at > self.now:
